@@ -122,7 +122,9 @@ def defined_names(code: str):
     return names
 
 
-PY_CONTEXTS = ["module", "function", "method", "if", "try", "with", "nested", "for", "for_matching", "while"]
+PY_CONTEXTS = ["module", "function", "method", "if", "try", "with", "nested", "for", "for_matching", "while",
+               "fluent_method", "init", "property", "async_function", "decorated", "else_branch"]
+PY_TAILS = {"try": ["except Exception:", "    raise"], "fluent_method": ["        return self"], "property": ["        return self._value"]}
 
 
 def embed_py(rng, code: str, k: int, renamed: bool, ctx: str | None = None):
@@ -132,7 +134,15 @@ def embed_py(rng, code: str, k: int, renamed: bool, ctx: str | None = None):
                     "for_matching": (["for outer_item in OUTER_ITEMS:", "    if not outer_item:", "        continue"], "    "),
                     "module": ([], ""), "function": (["def outer_scope():"], "    "), "method": (["class OuterScope:", "    def run(self):"], "        "),
                     "if": (["if FEATURE_FLAG:"], "    "), "try": (["try:"], "    "), "with": (["with managed():"], "    "),
-                    "nested": (["def outer_scope():", "    if FEATURE_FLAG:", "        with managed():"], "            ")}[ctx]
+                    "nested": (["def outer_scope():", "    if FEATURE_FLAG:", "        with managed():"], "            "),
+                    # functions that rules treat specially themselves (a fluent builder method, a constructor, a property getter, a
+                    # coroutine, a decorated function): what is defined inside them is still code of its own
+                    "fluent_method": (["class OuterBuilder:", "    def with_defaults(self):"], "        "),
+                    "init": (["class OuterScope:", "    def __init__(self):"], "        "),
+                    "property": (["class OuterScope:", "    @property", "    def value(self):"], "        "),
+                    "async_function": (["async def outer_scope():"], "    "),
+                    "decorated": (["@functools.cache", "def outer_scope():"], "    "),
+                    "else_branch": (["if FEATURE_FLAG:", "    pass", "else:"], "    ")}[ctx]
     lines, copies = [], []
     n_fill = 0
     for _ in range(rng.randint(0, 2)):
@@ -149,8 +159,7 @@ def embed_py(rng, code: str, k: int, renamed: bool, ctx: str | None = None):
         lines += [(indent + ln) if ln.strip() else ln for ln in body.split("\n")]
         if c < k - 1:
             lines += [indent + f"separator_{c} = {c}", ""]
-    if ctx == "try":
-        lines += ["except Exception:", "    raise"]
+    lines += PY_TAILS.get(ctx, [])
     for _ in range(rng.randint(0, 2)):
         lines += [""] + [ln.format(i=n_fill) for ln in rng.choice(FILLER_PY_VARIANTS)]
         n_fill += 1
